@@ -312,8 +312,29 @@ def threshold_at_metric(ctx, chk):
     cap = []
 
     def stub(ev_, fi, bound):
-        cap.append(dict(bound))
+        b_ = dict(bound)
+        b_["__pc__"] = list(ev_.pc)
+        cap.append(b_)
         return Sym("INVERTED")
+
+    def emptiness(pc, arr):
+        """True / False when the path condition decides len(arr) == 0, None otherwise."""
+        from ..terms import subst as _subst
+        ln = App("len", (arr,))
+        for c_, t_ in pc:
+            ats = [a_ for a_ in [c_] + list(atoms_of(c_)) if isinstance(a_, App) and a_.fn in ("len", "size")]
+            if not ats or any(a_.args[0] != arr for a_ in ats):
+                continue
+            mp0, mp1 = {a_: Const(0) for a_ in ats}, {a_: Const(1) for a_ in ats}
+            try:
+                v0, v1 = _subst(c_, mp0), _subst(c_, mp1)
+            except Exception:
+                continue
+            if isinstance(v0, Const) and isinstance(v1, Const) and bool(v0.value) != bool(v1.value):
+                return bool(v0.value) == bool(t_)
+        return None
+
+    grid_xs = {}
 
     target = Sym("target", ("param", "array", "notnone"))
     M = Sym("metric", ("callable", "param", "notnone"))
@@ -350,17 +371,30 @@ def threshold_at_metric(ctx, chk):
                     lo, hi = x.args[0], x.args[1]
                     # the grid spans [smallest score, largest score] over the NON-EMPTY classes (emptiness = length 0, not "no truthy element":
                     # a class of all-zero scores is not empty)
+                    pc_ = b.get("__pc__", [])
+
                     def _end(arr, pos_, fill):
+                        em = emptiness(pc_, arr)      # a path that has already decided which classes are empty
+                        if em is True:
+                            return None
+                        if em is False:
+                            return mk_app("getitem", [arr, Const(pos_)])
                         return ite(compare(">", App("len", (arr,)), Const(0)), mk_app("getitem", [arr, Const(pos_)]), fill)
-                    want_lo = mk_app("min", [_end(POS, 0, INF), _end(NEG, 0, INF)])
-                    want_hi = mk_app("max", [_end(POS, -1, neg(INF)), _end(NEG, -1, neg(INF))])
+
+                    def _join(fn_, parts, fill):
+                        parts = [p_ for p_ in parts if p_ is not None]
+                        return fill if not parts else parts[0] if len(parts) == 1 else mk_app(fn_, parts)
+                    want_lo = _join("min", [_end(POS, 0, INF), _end(NEG, 0, INF)], INF)
+                    want_hi = _join("max", [_end(POS, -1, neg(INF)), _end(NEG, -1, neg(INF))], neg(INF))
                     ok = same(lo, want_lo) and same(hi, want_hi)
+                    if ok:
+                        grid_xs.setdefault(mode, set()).add(x.key)
                     if not ok:
                         # another spelling of the same range is not decided; a range whose emptiness tests look at the score VALUES is wrong
                         conds = [a_.args[0] for e_ in (lo, hi) for a_ in [e_] + list(atoms_of(e_)) if isinstance(a_, App) and a_.fn == "ite" and len(a_.args) == 3]
                         by_value = [c_ for c_ in conds if any(isinstance(x_, App) and x_.fn not in ("len", "size") and (POS.key in x_.key or NEG.key in x_.key)
                                                              for x_ in [c_] + list(atoms_of(c_)) if isinstance(x_, App) and x_.fn in ("any", "all", "sum", "getitem", "max", "min", "count_nonzero"))]
-                        if not by_value and "min(" in lo.key and "max(" in hi.key and all(k_ in lo.key and k_ in hi.key for k_ in (POS.key, NEG.key)):
+                        if not by_value and all(k_ in lo.key and k_ in hi.key for k_ in (POS.key, NEG.key)):
                             chk.unknown("R17.5", "points=int: the grid range [%s, %s] is not in the recognised form" % (show(lo, 100), show(hi, 100)))
                             ok = None
             if ok is None:
@@ -407,7 +441,8 @@ def threshold_at_metric(ctx, chk):
                     okx = isinstance(x, App) and x.fn == "sort" and isinstance(x.args[0], App) and x.args[0].fn == "concat" and sorted(a.key for a in x.args[0].args) == sorted([POS.key, NEG.key])
                 else:
                     okx = isinstance(x, App) and x.fn == "linspace" and len(x.args) >= 3 and x.args[2] == pts and x.kwd("dtype") is None and \
-                        POS.key in x.args[0].key and NEG.key in x.args[0].key and POS.key in x.args[1].key and NEG.key in x.args[1].key
+                        ((POS.key in x.args[0].key and NEG.key in x.args[0].key and POS.key in x.args[1].key and NEG.key in x.args[1].key)
+                         or x.key in grid_xs.get("int", ()))      # or: one of the grids the callable form was shown to use on its paths
                 oky = y == App("RATE", (x,))
                 if not (okx and oky):
                     bad = (x, y)
